@@ -236,6 +236,10 @@ func (rt *Transfer) recvGenerator(idx int, f *File) error {
 		if err := rt.createDevice(f, st); err != nil {
 			return err
 		}
+		// like for any other entry, apply permissions, times and ownership
+		if err := rt.setPerms(f, fs.FileMode(f.Mode)); err != nil {
+			return err
+		}
 		return nil
 	}
 
